@@ -128,6 +128,16 @@ def judge(prop, case, outs, var, cf=None):
     return fails
 
 
+def safe_judge(prop, case, outs, var, cf=None):
+    """judge() for the reporting path (shrinking, replay): an answer of an unexpected shape the oracle cannot read is the
+    failure `<pid>.unexpected_output`, not a crash of the check"""
+    try:
+        return judge(prop, case, outs, var, cf)
+    except Exception:
+        return [{"clause": prop.id + ".unexpected_output", "detail": {"oracle_trace": traceback.format_exc()[-700:],
+                                                                         "outputs": [o for o in outs if isinstance(o, str) and not o.startswith(("ok", "E:"))][:3]}}]
+
+
 def num_of(x):
     if isinstance(x, list) and len(x) >= 2 and x[0] == "f":
         return float(x[1])
@@ -333,7 +343,7 @@ def explore(pid, tier, seed, use_model, case_iter=None, pool=None):
 def still_fails(prop, case, clause, kf):
     try:
         lines, outs, var, cf = run_impl(prop, case)
-        fails = judge(prop, case, outs, var, cf)
+        fails = safe_judge(prop, case, outs, var, cf)
     except Exception:
         return False
     for f in fails:
@@ -458,11 +468,11 @@ def main():
         case, f = min(violations, key=lambda cf: len(jd(cf[0])))
         small = shrink(prop, case, f["clause"], kf)
         lines, outs, var, cf = run_impl(prop, small)
-        fs = [x for x in judge(prop, small, outs, var, cf) if classify.known(pid, small, x, kf) is None]
+        fs = [x for x in safe_judge(prop, small, outs, var, cf) if classify.known(pid, small, x, kf) is None]
         if not fs:      # shrinking lost the failure (e.g. it depends on process state): keep the original case
             small = case
             lines, outs, var, cf = run_impl(prop, small)
-            fs = [x for x in judge(prop, small, outs, var, cf) if classify.known(pid, small, x, kf) is None] or [f]
+            fs = [x for x in safe_judge(prop, small, outs, var, cf) if classify.known(pid, small, x, kf) is None] or [f]
         replay_path = write_replay(pid, {"property": pid, "kind": "failing-input", "case": small, "lines": cf["full"],
                                          "failures": fs[:5], "observed": cf["allouts"], "broken": broken})
         rc = 1
@@ -477,7 +487,7 @@ def main():
                     case, f = min(v2, key=lambda cf: len(jd(cf[0])))
                     small = shrink(prop, case, f["clause"], kf)
                     lines, outs, var, cf = run_impl(prop, small)
-                    fs = judge(prop, small, outs, var, cf)
+                    fs = safe_judge(prop, small, outs, var, cf)
                     replay_path = write_replay(pid, {"property": pid, "kind": "failing-input", "case": small, "lines": lines,
                                                      "failures": fs[:5], "observed": outs, "broken": broken})
                     break
